@@ -190,27 +190,30 @@ PROPS["C13"] = dict(
 
 PROPS["C17"] = dict(
     modules=["common", "c17"],
-    contracts=["mm.__init__", "mm.append", "mm.getlist", "mm.__getitem__", "mm.multi_items", "mm.__delitem__", "mm.setlist", "mm.poplist"],
+    contracts=["mm.__init__", "mm.append", "mm.getlist", "mm.__getitem__", "mm.multi_items", "mm.__delitem__", "mm.setlist", "mm.poplist", "mm.__setitem__"],
     refute={"quick": [2], "thorough": [1, 2, 3]},
     native="c17",
     level="other",
     trusted=["A-py-1", "A-solver", "A-pyvc"],
     level_text="Mixed. PROVED for lists of any length: the representation invariant R (the dict holds exactly the keys of the pair list "
-               "and, for each key, its LAST value) is established by __init__ and preserved by append, __delitem__, setlist and "
-               "poplist, each with its effect on the abstract view (the pair list): append adds one pair at the end; del removes "
+               "and, for each key, its LAST value) is established by __init__ and preserved by append, __setitem__, __delitem__, setlist "
+               "and poplist, each with its effect on the abstract view (the pair list): append adds one pair at the end; del removes "
                "exactly the pairs of the key, keeps the others, raises KeyError iff absent and then changes nothing; setlist "
                "replaces the key's pairs by the new ones at the end / removes them when empty; poplist returns the key's "
-               "values; getlist returns exactly the key's values; indexing returns the last one; multi_items is the list. "
-               "BOUNDED (labelled): __setitem__ (in-place deletion loop over reversed indexes: needs a ghost order-preserving "
-               "index map, not attempted), the MutableMapping mixins (pop, popitem, setdefault, update, clear), QueryParams/"
+               "values; getlist returns exactly the key's values; indexing returns the last one; multi_items is the list; "
+               "assignment (__setitem__, an in-place deletion loop over the reversed key positions, proved with ghost code: two "
+               "ghost maps between old and current positions, updated by ghost statements attached to `del self._list[index]`) "
+               "puts the new value at the FIRST occurrence, removes every other occurrence and keeps all other pairs in their "
+               "order, or appends when the key is absent. So every primitive the stdlib mixins build on is under contract. "
+               "BOUNDED (labelled): the MutableMapping mixins (pop, popitem, setdefault, update, clear), QueryParams/"
                "FormData and the query-string round trip are compared after every step with a plain ordered list over all "
                "operation sequences up to the stated bound.",
     level_note="Trusted: dict(pairs) keeps the last value per key (A-dict-1); Mapping/MutableMapping mixins go through "
                "__getitem__/__setitem__/__delitem__ (A-abc-1); filter lemmas of the comprehension encoding (A-filter-total); "
                "parse_qsl/urlencode inverse (A-qs-1, bounded only). Keys and values are opaque (only equality).",
-    technique="deductive verification: representation invariant + per-method view contracts (quantified arrays, comprehension encoding), SMT; bounded reference-model run for the rest",
-    explanation="proved: R established/preserved and view effects for __init__, append, __delitem__, setlist, poplist, getlist, "
-                "__getitem__, multi_items; bounded: __setitem__, mixin mutators, QueryParams/FormData, query round trip.",
+    technique="deductive verification: representation invariant + per-method view contracts (quantified arrays, comprehension encoding, ghost position maps for the in-place loop), SMT; bounded reference-model run for the rest",
+    explanation="proved: R established/preserved and view effects for __init__, append, __setitem__, __delitem__, setlist, poplist, "
+                "getlist, __getitem__, multi_items; bounded: mixin mutators, QueryParams/FormData, query round trip.",
 )
 
 PROPS["C14"] = dict(
